@@ -548,6 +548,11 @@ func c14Producers(p *Prog, r *Report) {
 				id, ok := c.Fun.(*ast.Ident)
 				return ok && id.Name == "append"
 			})
+			// the pop is an argument of the very append that records it: removed = append(removed, u.discard(f.PopFront()))
+			if setOf(appends)[pid] {
+				r.Hold("C14.b", cons, p.pos(gn.Ast), "the popped version is recorded by the statement that pops it")
+				continue
+			}
 			if nodeObj == nil {
 				// value popped in an expression statement: the value comes from the iterator (DeleteOld)
 				ok := false
